@@ -42,6 +42,10 @@ CHECKS = {
   text='Coq theorem C04_fulldec_read over an executable model of the FullDecrypted branch of get_data (chunk classification, insertion-ordered grouping dictionary, header patch, head/tail trimming): for every well-formed region table and every (offset, length) the read equals the slice of one whole image, whose size is the declared content size; the grouping argument is proved for any classifier whose sections are chunk intervals. Extracted model run against get_data; seek/read histories around every section boundary, image size and the key-free re-parse decided against builder plaintexts.',
   note='Theorem assumes 0x200-aligned, pairwise disjoint regions inside the content (malformed tables: C19). Handle position bookkeeping is oracle-checked here (C09 covers the base class). Trusted: Coq kernel, extraction + driver, hand model NcchFull.v (tie 2), builder.',
   technique='Rocq/Coq refinement proof (run-grouping invariant over the chunk loop, trimming algebra) + correspondence + metamorphic re-parse'),
+ 'C05': dict(
+  text='Coq theorems: the regenerated roundup is the least multiple >= x for every integer; the five regenerated section-offset expressions place each section at the next 64-byte boundary; the content-index loop lists content i exactly when bit (7 - i mod 8) of byte i/8 is set; content selection returns exactly the TMD records marked present and refuses an index without a record; the title key survives the ticket round trip whenever D inverts E; content regions lie back to back; content IV expression regenerated. Content views are CBC wrappers over windows (C02). Geometry, title key, active set, content views and nested readers (different keys, interleaved order) decided against independent CIA/NCCH builders.',
+  note='Partial: key isolation between nested readers and the composition with nested NCCH readers are oracle-only. Trusted: Coq kernel, translator, hand model Cia.v (tie 2 by oracle), builders, synthetic bootROM blobs.',
+  technique='Rocq/Coq proofs over regenerated kernels and the index/selection model + builder oracle'),
 }
 
 NOT_YET = 'check not built yet in this session (work in progress; see DESIGN.md section 10 order of work)'
